@@ -59,6 +59,11 @@ def check(pid, tier, seed, replay=None):
             for i in range(100 if thorough else 30):     # a large Bytes value followed by many small fields: the growth path that ends at 64 KiB
                 chains.append({"a": "Chain", "chain": ["BytesBig"] + [rng.choice(["Ints", "Int", "Str", "Bools", "Floats64"]) for _ in range(rng.choice([10, 20, 30]))],
                                "ctx": rng.choice(ctxs), "enabled": True, "fin": "Msg", "var": 0, "set": "", "wr": ""})
+            # a dictionary built before the event is opened, content lengths sweeping across the pooled buffer's capacity
+            for ln in list(range(484, 502)) + [890, 893, 896, 1018, 1021, 1024]:
+                for ctx in ("none", "ts"):
+                    chains.append({"a": "Chain", "chain": ["Int"], "ctx": ctx, "enabled": True, "fin": "Msg", "var": 0, "set": "", "wr": "", "pre": ln})
+            chains.append({"a": "Chain", "chain": ["Int"], "ctx": "none", "enabled": False, "fin": "Msg", "var": 0, "set": "", "wr": "", "pre": 493})
             for i in range(3000 if thorough else 300):   # longer random chains, still within the pooled buffer
                 chains.append({"a": "Chain", "chain": rchain(rng.randint(3, 6)), "ctx": rng.choice(ctxs),
                                "enabled": rng.random() < 0.7, "fin": rng.choice(["Msg", "Send"]), "var": rng.randrange(3), "set": rng.choice(sets),
